@@ -25,6 +25,10 @@ CHECKS = {
    tech="TLA+ spec Validate.tla (validation as staged function over character-class sequences): TLC checks the theorems on every class sequence; every sequence is concretised and run through the real ValidateQuery; TLC validates each recorded call",
    text="TLC evaluates acceptance, cleanliness, length and idempotence theorems on every character-class sequence up to length 4/5 (Max scaled to 4 bytes); each sequence is concretised with several representatives per class and run through the real ValidateQuery, as are thousands of random strings, raw byte strings and 999..1001-byte inputs; TLC then checks for each recorded call that the decision and the output class sequence are exactly those of the specification and that re-validation returned the same bytes. Limits are checked the same way.",
    note="Character classes and the Go classifier are the trusted abstraction; all-strings coverage is by class partition, not bytes."),
+ "C02": dict(cat="model_checking", ref="DESIGN.md section 5, C02",
+   tech="TLA+ spec SearchFlow.tla enumerates the scenario space with TLC; each scenario is executed repeatedly (same process, re-loaded copy, separate process) on the real engine and TLC validates the recorded answers against TraceSearch.tla (all repetitions identical)",
+   text="TLC enumerates entry point x option x query-kind x corpus scenarios from the SearchFlow model; a stratified sample (all of them in the thorough tier) plus tie-heavy and shipped-database cases is executed on the real engine 6-25 times in-process, on a freshly loaded copy and in a separate process, and TLC checks on the recorded events that every repetition returned the identical documents in the identical order with identical score bits, and that 'did you mean' suggestions are reproducible.",
+   note="Map iteration order is randomised by the Go runtime on every loop, so repetition samples the 'scheduler'; exhaustiveness is over scenarios, not over iteration orders."),
 }
 NOT_APPLICABLE = {}
 
